@@ -4,7 +4,7 @@ from props.common import gen_stalls, gen_strategy, quiet_logging, Violations
 from worlds.reqpath import ReqPathRun, base_plan, RETRY, RETHROW, IGNORE, RETRY_NEXT_HOST
 
 ID = 'C14'
-TIERS = {'quick': {'runs': 4000, 'budget_s': 55, 'wall_cap': 90, 'block': 60},
+TIERS = {'quick': {'runs': 12000, 'budget_s': 55, 'wall_cap': 90, 'block': 60},
          'thorough': {'runs': 400000, 'budget_s': 840, 'wall_cap': 90, 'block': 60}}
 SHRINK_LISTS = ['requests', 'faults', 'late_adders']
 COVERAGE_RULE = ('one run = real Cluster/Session over 1-4 fake nodes, scripted query plans and retry decisions, optional '
